@@ -142,7 +142,25 @@ def gen_infinite(seed, idx):
     return plan
 
 
+def directed(i):
+    """the recorded known finding, exercised on every run: infinite TTLs, the watcher restarts, its unicast Subscribe
+    overtakes its own multicast FindService (jitter): the second reboot detection wipes the new subscription"""
+    ta = {"INITIAL_DELAY_MIN": 0.0, "INITIAL_DELAY_MAX": 0.1, "REPETITIONS_MAX": 1, "REPETITIONS_BASE_DELAY": 0.05, "CYCLIC_OFFER_DELAY": 0.5, "ANNOUNCE_TTL": 0xFFFFFF, "FIND_TTL": 3,
+          "SUBSCRIBE_TTL": 0xFFFFFF, "SUBSCRIBE_REFRESH_INTERVAL": None, "SEND_COLLECTION_TIMEOUT": 0.05, "REQUEST_RESPONSE_DELAY_MIN": 0.01, "REQUEST_RESPONSE_DELAY_MAX": 0.01}
+    tb = dict(ta, CYCLIC_OFFER_DELAY=2.0)
+    cfg = {"nodes": {"A": {"role": "offerer", "timings": ta}, "B": {"role": "watcher", "timings": tb}}, "net": {"latency": 0.02, "jitter": 0.01, "windows": [], "partitions": []},
+           "mc_loop": False, "sock_flip": 0, "infinite": True, "uniform": {"A": [0.0], "B": [1.0]}}
+    ops = [{"k": "node", "t": 5.37389, "n": "B", "f": "crash"}, {"k": "node", "t": 5.42389, "n": "B", "f": "restart"}]
+    plan = {"engine": "pair", "property": ID, "class": "directed-infinite", "seed": 6, "cfg": cfg, "ops": ops, "until": 11.0}
+    return plan
+
+
+NDIRECTED = 1
+
+
 def gen(seed, idx, tier):
+    if idx < NDIRECTED:
+        return directed(idx)
     if idx % 5 == 4:
         return gen_infinite(seed, idx)
     r = rng(seed, ID, idx)
@@ -219,6 +237,7 @@ def check(plan, res):
     probes = {}
     states = set()
     drift = cfg.get("drift", {})
+    sub_oracles = {}
     actors = sorted({e[3] for e in res.log if e[4] == "boot"})
     for actor in actors:
         role = cfg["nodes"][actor[0]]["role"]
@@ -231,6 +250,7 @@ def check(plan, res):
         elif role == "offerer":
             insts = [{"svc": SERVICE[0], "inst": 1, "major": 1, "minor": 0, "egs": [pair.EVENTGROUP]}, {"svc": 0x1111, "inst": 2, "major": 1, "minor": 0, "egs": []}]
             o = SubscriptionOracle(insts, node=actor, rate=rate).walk(res.log)
+            sub_oracles[actor] = o
             for rule, d in o.violations:
                 if rule in C06_RULES:
                     viol.append(("ALWAYS-C06", {"msg": f"{actor}: {rule}: {d['msg']}", "context": f"{rule}:{d['context']}"}))
@@ -249,6 +269,17 @@ def check(plan, res):
     latest_sub = None
     nconv = 0
     reported = set()
+    infinite = bool(cfg.get("infinite"))
+    if infinite and not (A.alive and B.alive):
+        # outside the clause's domain (a crash without restart; only a minimiser produces this)
+        w0 = float("inf")
+    detections = 0
+    if infinite and A.alive:
+        # how often did the offerer's current incarnation detect a reboot of the watcher since the watcher's last boot?
+        b_boot = max([e[2] for e in res.log if e[4] == "boot" and e[3] == B.actor] + [0.0])
+        oa = sub_oracles.get(A.actor)
+        if oa is not None:
+            detections = sum(1 for (src, ridx, ep) in oa.reboots if src == pair.ADDR["B"] and res.log[ridx][2] >= b_boot)
     for seq, it, T, actor, kind, data in res.log:
         if kind == "cb":
             if actor == B.actor and data[0] in ("offered", "stopped") and data[1] == "L0" and data[2] == SERVICE and data[3] == pair.ADDR["A"]:
@@ -264,6 +295,8 @@ def check(plan, res):
             if A.alive and (latest_sub == "subscribed") != (a_off and b_run) and "s" not in reported:
                 reported.add("s")
                 ctx = "stale-subscription" if not (a_off and b_run) else "subscription-missing"
+                if infinite and ctx == "subscription-missing" and detections >= 2:
+                    ctx = "infinite-ttl:second-reboot-detection-on-other-channel"
                 viol.append(("CONVERGED-SUBSCRIPTION", {"msg": f"idle at {T:.6f} (D={D:.6f}, window from {w0:.6f}): offering={a_off}, watcher running={b_run}, offerer's latest notification={latest_sub}", "context": ctx}))
     probes["converged_checks"] = nconv
     if plan.get("aligned"):
